@@ -330,9 +330,9 @@ func c02Scripts(k, n int, withTerminal bool) [][]rt.Ev {
 }
 
 func TestC02_OverlapEnumerated(t *testing.T) {
-	reps := 12
+	reps := 40
 	if rt.Thorough() {
-		reps = 150
+		reps = 400
 	}
 	belows := [][]string{{}, {"Map"}, {"Scan", "Filter"}, {"StartWith"}, {"TapOnSubscribe"}, {"TapOnFinalize"}, {"Defer"}, {"CatchPass"}, {"Map", "StartWith"}, {"StartWith", "Serialize"}, {"Serialize", "StartWith"}}
 	idx := 0
@@ -360,9 +360,9 @@ func TestC02_OverlapEnumerated(t *testing.T) {
 }
 
 func TestC02_OverlapRandom(t *testing.T) {
-	reps := 8
+	reps := 20
 	if rt.Thorough() {
-		reps = 60
+		reps = 120
 	}
 	names := []string{"Map", "Filter", "Scan", "StartWith", "TapOnSubscribe", "TapOnFinalize", "Serialize", "Defer", "CatchPass"}
 	rapid.Check(t, func(t *rapid.T) {
